@@ -473,6 +473,37 @@ REBIND = [
 ]
 
 
+# binding forms with a scope of their own: the check runs inside (@)
+SCOPED_REBIND = [
+    "for NULL in [7] do @ end", "for [a, NULL] in [[1, 7]] do @ end",
+    "[@ for NULL in [7]][0]", "[@ for x in [1] for NULL in [7]][0]",
+    "[@ for x in [1] also for NULL in [7]][0]",
+    "[@ for NULL in [7] for x in [1]][0]",
+    "list(<<@ for NULL in [7]>>)[0]", "<<<1 => @ for NULL in [7]>>>[1]",
+    "require Math as NULL; @", "require Math import [PI as NULL]; @",
+    "require Math import [PI as p, E as NULL]; @",
+]
+
+
+def scoped_rebind_prop(template):
+    check = ("[eval(t) == v, string(eval(t)) == t, "
+             "string([NULL]) == '[NULL]', NULL == v[0]]")
+    inner = template.replace("@", check)
+    src = (f"def v = [NULL, <<<'a' => NULL>>>, <<NULL>>]; def t = string(v); "
+           f"def r = [TRUE, TRUE, TRUE, TRUE]; "
+           f"do r = eval(\"{inner}\") catch all 0 end; r")
+    out = cklrun.run(src, budget=20)
+    if out[0] != "value":
+        return Finding(f"C08|rebinding|{out[0]}",
+                       f"{src} -> {cklrun.short(out)}")
+    got = cklrun.to_model(out[1])
+    if got != [True, True, True, True]:
+        return Finding("C08|roundtrip|notation-word-rebound",
+                       f"{src} -> {got!r}: inside `{template}` the text of a "
+                       f"value no longer evaluates to that value")
+    return None
+
+
 def rebind_prop(stmt):
     """What a rendered text means must not depend on what the program did
     before: the words of the notation (NULL) cannot be given another value."""
@@ -497,6 +528,12 @@ def part_twins(part):
         part.distinct()
         part.cls("rebinding", stmt)
         part.collect(rebind_prop(stmt), {"kind": "rebind", "stmt": stmt})
+    for tmpl in SCOPED_REBIND:
+        part.count()
+        part.distinct()
+        part.cls("rebinding-scoped", tmpl)
+        part.collect(scoped_rebind_prop(tmpl),
+                     {"kind": "rebind-scoped", "template": tmpl})
     for a, b in TWINS:
         part.count()
         part.distinct()
@@ -509,6 +546,8 @@ def prop(case):
     k = case["kind"]
     if k == "twins":
         return twins_prop(case["a"], case["b"])
+    if k == "rebind-scoped":
+        return scoped_rebind_prop(case["template"])
     if k == "rebind":
         return rebind_prop(case["stmt"])
     if k == "value":
